@@ -384,7 +384,7 @@ def counters(ctx, rep):
         if all(t is not None for t in truths):
             want = len([t for t in truths if t])
             rep.ob("R-COUNTER", "timeout worker: TIMEOUT iff cancel succeeded [%s]" % truths, len(ti) == want, "cancel() %s but TIMEOUT inc x%d" % (truths, len(ti)), where_of(cs[0].fn, cs[0].node), trace_of(p, cs[0].seq))
-    rep.require(ncs >= 2, "timeout worker: cancel of overdue jobs not found")
+    rep.require(ncs >= 1, "timeout worker: cancel of overdue jobs not found")
     # SHUTDOWN_CANCEL
     cs_cls = prog.cls("CancelOnShutdownExecutor")
     sh = cs_cls.methods["shutdown"]
